@@ -134,7 +134,7 @@ def check(rep, prop, tier, seed, replay=None):
     obligations = []
     for f in spec["formats"]:
         n = pipeline.lname(f["file"])
-        obligations.append(("check_%s" % n, "%s Spec.%s Gen.%s = true" % (chk, n, n), "by decide"))
+        obligations.append(("check_%s" % n, "%s Spec.%s Gen.%s = true" % (chk, n, n), "by decide +kernel"))
         obligations.append(("holds_%s" % n, "_", "%s Spec.%s Gen.%s check_%s" % (thm, n, n, n)))
     # `holds_*` has its statement inferred: emit as `theorem name : T := proof` needs T; use abbreviation below
     obligations = [(n, s, p) for (n, s, p) in obligations if not n.startswith("holds_")]
